@@ -74,20 +74,15 @@ noncomputable def rhsList (phase fabric : Int) (n : ℕ) (mp : MParams) (env : R
 
 /-- the concrete right-hand side of the scaled history is `k` times the original one -/
 theorem rhsList_scale (phase fabric : Int) (n : ℕ) (mp : MParams) (env : RhsEnv) (y : List ℝ)
-    (k : ℝ) (hk : k ≠ 0) (hreg : env.regime ≠ 1) (spin' : Mat3) :
+    (k : ℝ) (hk : k ≠ 0) (hreg : env.regime ≠ 1) (spin' : Mat3)
+    (hsym : env.emax = 0 → ∀ i j, env.L i j + env.L j i = 0) :
     rhsList phase fabric n mp { scaleEnv k env with spin := spin' } y
       = (rhsList phase fabric n mp env y).map (k * ·) := by
   unfold rhsList
-  cases h : evalRhs phase fabric n mp env y with
-  | ok v => simp only [rhs_homogeneous phase fabric n mp env y v k hk hreg spin' h]
-  | error e =>
-    by_cases he0 : env.emax = 0
-    · -- with a vanishing strain rate only the phase lookup can fail, and it does not see the rate
-      unfold evalRhs at h ⊢
-      cases hl : lookupFraction mp.assemblage mp.fractions phase with
-      | error e' => simp [hl]
-      | ok phi => simp [hl, he0] at h
-    · simp only [rhs_error_homogeneous phase fabric n mp env y k hk hreg spin' e h he0, List.map_nil]
+  rw [rhs_scale phase fabric n mp env y k hk hreg spin' hsym]
+  cases evalRhs phase fabric n mp env y with
+  | ok v => rfl
+  | error e => rfl
 
 /-- **C05 for the modelled update itself (steady flows)**: every explicit Runge–Kutta scheme applied
 to the actual `eval_rhs` and the actual `perform_step` post-processing visits the same states when
@@ -95,13 +90,14 @@ the velocity gradient is multiplied by `k ≠ 0`, the largest principal strain r
 all steps are divided by `k` — whatever the externally computed spin of the fast run is. -/
 theorem update_rate_invariant_steady (a : List (List ℝ)) (b : List ℝ)
     (phase fabric : Int) (n : ℕ) (mp : MParams) (env : RhsEnv) (prev : List Mat3)
-    (k : ℝ) (hk : k ≠ 0) (hreg : env.regime ≠ 1) (spin' : Mat3) (hs : List ℝ) (y : List ℝ) :
+    (k : ℝ) (hk : k ≠ 0) (hreg : env.regime ≠ 1) (spin' : Mat3)
+    (hsym : env.emax = 0 → ∀ i j, env.L i j + env.L j i = 0) (hs : List ℝ) (y : List ℝ) :
     runSteps (rkStep a b (rhsList phase fabric n mp { scaleEnv k env with spin := spin' })
         (postStep mp.chi n prev)) (hs.map (· / k)) y
       = runSteps (rkStep a b (rhsList phase fabric n mp env) (postStep mp.chi n prev)) hs y := by
   have hfun : rhsList phase fabric n mp { scaleEnv k env with spin := spin' }
       = fun z => (rhsList phase fabric n mp env z).map (k * ·) := by
-    funext z; exact rhsList_scale phase fabric n mp env z k hk hreg spin'
+    funext z; exact rhsList_scale phase fabric n mp env z k hk hreg spin' hsym
   rw [hfun]
   exact rk_rate_invariant a b _ _ k hk hs y
 
